@@ -1,10 +1,47 @@
-(* C02 -- the line reader yields exactly the input's records.  Statements only. *)
-From PP Require Import Reader.FilePieceDefs.
-Local Open Scope Z_scope.
+(* C02 -- the line reader (util::FilePiece) yields exactly the input's records for any
+   source and chunking.  Statements only; proofs are in Reader/FilePieceProofs.v, the
+   executable model (what the correspondence check runs against util/file_piece.cc) in
+   Reader/FilePieceDefs.v, the OS oracle in Sys/SysIODefs.v, the specification function
+   [records] in Base/Lines.v.
 
+   Reading the statements: [fp_open_read cap (os_init src script)] is FilePiece(fd) on a
+   pipe that will deliver the bytes [src], where the k-th read() call behaves as the
+   k-th entry of [script] (Full | Short n | Eintr; Full for ever afterwards);
+   [read_all d cr s] calls ReadLineOrEOF(d, cr) until it returns false and collects the
+   records; the result [Ok ...] says that no error and no fuel exhaustion occurred. *)
+From PP Require Import Reader.FilePieceDefs Reader.FilePieceProofs.
+Local Open Scope nat_scope.
+
+(* read() path (pipes, and what every decompressor feeds): all byte strings not starting
+   with a compression magic, all outcome scripts without hard errors, all window sizes,
+   all delimiters, with and without CR stripping.  Third conjunct: EOF is sticky (the
+   state no longer changes, so every further call reports EOF again). *)
+Theorem C02_read_path_records :
+  forall cap src script d cr,
+  1 <= cap -> no_err script = true -> detect_magic src = false ->
+  exists s sf, fp_open_read cap (os_init src script) = Ok s /\
+    read_all d cr s = (Ok (records d cr src), sf) /\
+    (forall d' cr', read_line d' cr' sf = (RlEOF, sf)).
+Proof. exact read_path_records. Qed.
+Print Assumptions C02_read_path_records.
+
+(* std::istream backing *)
+Theorem C02_istream_records :
+  forall cap src d cr, 1 <= cap ->
+  exists sf, read_all d cr (fp_open_istream cap src) = (Ok (records d cr src), sf) /\
+    (forall d' cr', read_line d' cr' sf = (RlEOF, sf)).
+Proof. exact istream_records. Qed.
+Print Assumptions C02_istream_records.
+
+(* non-vacuity: concrete data meeting the hypotheses, window of 2 bytes that has to double
+   and to compact, short reads and an EINTR, CR before the delimiter, empty record,
+   unterminated last record *)
 Example C02_nonvacuous_read :
-  match fp_open_read 2 (os_init [97; 10; 98; 13; 10; 10; 99] [Short 1; Eintr; Short 2]) with
-  | Ok s => fst (read_all 10 true s) = Ok (records 10 true [97; 10; 98; 13; 10; 10; 99])
+  let src := [97; 10; 98; 13; 10; 10; 99]%Z in
+  no_err [Short 1; Eintr; Short 2] = true /\ detect_magic src = false /\
+  records 10%Z true src = [[97]; [98]; []; [99]]%Z /\
+  match fp_open_read 2 (os_init src [Short 1; Eintr; Short 2]) with
+  | Ok s => fst (read_all 10%Z true s) = Ok [[97]; [98]; []; [99]]%Z
   | Fail _ => False
   end.
-Proof. vm_compute. reflexivity. Qed.
+Proof. vm_compute. repeat split. Qed.
